@@ -122,6 +122,17 @@ def inline_body(F, body, depth=3, _stack=None, keep=(), only=None):
                 changed = True
                 work.extend(range(len(raw["blocks"]) - 2, len(raw["blocks"])))
                 continue
+        if t["k"] == "call" and t.get("target") is not None and t.get("dest") is not None and \
+                strip_generics(t.get("callee", "")) in ("core::iter::traits::iterator::Iterator::any", "core::iter::traits::iterator::Iterator::all"):
+            nb0 = len(raw["blocks"])
+            if _summarise_any_all(raw, bi, t, body):
+                changed = True
+                work.extend(range(nb0, len(raw["blocks"])))
+                continue
+        if t["k"] == "call" and t.get("target") is not None and t.get("dest") is not None and strip_generics(t.get("callee", "")) in _CTOR_MAPS:
+            if _summarise_ctor_map(F, raw, bi, t):
+                changed = True
+                continue
         if t["k"] == "call" and t.get("target") is not None and t.get("dest") is not None and strip_generics(t.get("callee", "")) == "core::option::Option::ok_or":
             if _summarise_ok_or(raw, bi, t):
                 changed = True
@@ -276,6 +287,8 @@ def forward_refs(raw, n0, argc):
                     a = resolve(base, depth + 1)
                     if a is not None:
                         out = {"l": a["l"], "p": list(a["p"]) + proj[1:]}
+                elif "*" not in proj:
+                    out = {"l": base, "p": proj}          # a reference to (a field of) a local: a local's address never changes
             elif rv["k"] == "use" and rv["op"].get("k") in ("copy", "move") and not rv["op"]["pl"]["p"]:
                 out = resolve(rv["op"]["pl"]["l"], depth + 1)
         alias[l] = out
@@ -386,6 +399,135 @@ def _summarise_enum_eq(F, raw, bi, t, body):
     blk["stmts"] = blk["stmts"] + [{"k": "assign", "pl": {"l": d, "p": []}, "rv": {"k": "discr", "pl": copy.deepcopy(place), "adt": m.group(1), "ty": m.group(1), "variants": vs}, "span": span}]
     blk["term"] = {"k": "switch", "discr": {"k": "move", "pl": {"l": d, "p": []}}, "discr_ty": "isize", "targets": [[hit[0]["discr"], b_hit]], "otherwise": b_other, "span": span,
                    "std_summary": "enum-eq"}
+    return True
+
+
+def _summarise_any_all(raw, bi, t, body):
+    """`[a, b, ..].iter().any(pred)` / `.all(pred)` over an array literal: written out as the short-circuit chain of predicate calls it
+    stands for (`pred(&a) || pred(&b) || ..`), so that path rules see one test per element"""
+    is_any = strip_generics(t["callee"]).endswith("::any")
+    args = t.get("args", [])
+    if len(args) != 2 or any(a.get("k") not in ("copy", "move") or a["pl"]["p"] for a in args):
+        return False
+    tb = Body(raw, body.crate)
+    tb.path = body.path
+
+    def one(l):
+        d = flow.single_def(tb, l)
+        return d if d and d[0] in ("assign", "call") else None
+    d = one(args[0]["pl"]["l"])                      # &mut iter
+    if not (d and d[0] == "assign" and d[3]["k"] == "ref" and not d[3]["pl"]["p"]):
+        return False
+    d = one(d[3]["pl"]["l"])                         # iter = <[T]>::iter(slice)
+    if not (d and d[0] == "call" and strip_generics(d[2].callee) in ("core::slice::<impl [T]>::iter", "core::array::<impl core::iter::traits::collect::IntoIterator for &[T; N]>::into_iter")
+            and d[2].args and d[2].args[0].get("k") in ("copy", "move")):
+        return False
+    l = d[2].args[0]["pl"]["l"]
+    arr = None
+    for _ in range(4):                               # slice = &arr (unsized)
+        d = one(l)
+        if not (d and d[0] == "assign"):
+            return False
+        rv = d[3]
+        if rv["k"] in ("cast", "use") and rv["op"].get("k") in ("copy", "move") and not rv["op"]["pl"]["p"]:
+            l = rv["op"]["pl"]["l"]
+            continue
+        if rv["k"] == "ref" and not rv["pl"]["p"]:
+            a = one(rv["pl"]["l"])
+            if a and a[0] == "assign" and a[3]["k"] == "agg" and a[3].get("agg") == "array":
+                arr = a[3]
+            break
+        return False
+    if arr is None or not (1 <= len(arr["ops"]) <= 8):
+        return False
+    arr_local = rv["pl"]["l"]
+    span = t.get("span", "")
+    blocks, locs = raw["blocks"], raw["locals"]
+    blk = blocks[bi]
+    inl = blk.get("inl_stack", [])
+    org = blk.get("origin", raw["path"])
+    clo = args[1]["pl"]["l"]
+
+    def new_local(ty=""):
+        locs.append({"id": len(locs), "ty": ty, "synthetic": True})
+        return len(locs) - 1
+    n = len(arr["ops"])
+    base = len(blocks)
+    # blocks: for each k: call block (base + 2k), test block (base + 2k + 1); then the two exits
+    b_short, b_end = base + 2 * n, base + 2 * n + 1
+    for k, op in enumerate(arr["ops"]):
+        ek, tup, cr, res = new_local(), new_local(), new_local(), new_local("bool")
+        nxt = base + 2 * (k + 1) if k + 1 < n else b_end
+        blocks.append({"id": base + 2 * k, "cleanup": False, "origin": org, "inl_stack": inl, "stmts": [
+            {"k": "assign", "pl": {"l": ek, "p": []}, "rv": {"k": "ref", "mut": False, "pl": {"l": arr_local, "p": [{"cidx": k, "from_end": False}]}}, "span": span},
+            {"k": "assign", "pl": {"l": tup, "p": []}, "rv": {"k": "agg", "agg": "tuple", "ops": [{"k": "move", "pl": {"l": ek, "p": []}}]}, "span": span},
+            {"k": "assign", "pl": {"l": cr, "p": []}, "rv": {"k": "ref", "mut": True, "pl": {"l": clo, "p": []}}, "span": span}],
+            "term": {"k": "call", "callee": "core::ops::function::FnMut::call_mut", "callee_full": "core::ops::function::FnMut::call_mut",
+                     "args": [{"k": "move", "pl": {"l": cr, "p": []}}, {"k": "move", "pl": {"l": tup, "p": []}}], "arg_tys": [], "dest": {"l": res, "p": []},
+                     "target": base + 2 * k + 1, "unwind": None, "span": span, "synthetic": True}})
+        # any: true -> short-circuit; all: false -> short-circuit
+        blocks.append({"id": base + 2 * k + 1, "cleanup": False, "origin": org, "inl_stack": inl, "stmts": [],
+                       "term": {"k": "switch", "discr": {"k": "move", "pl": {"l": res, "p": []}}, "discr_ty": "bool",
+                                "targets": [[0, nxt if is_any else b_short]], "otherwise": b_short if is_any else nxt, "span": span, "std_summary": "iter-any-all"}})
+    for bid, val in ((b_short, is_any), (b_end, not is_any)):
+        blocks.append({"id": bid, "cleanup": False, "origin": org, "inl_stack": inl,
+                       "stmts": [{"k": "assign", "pl": copy.deepcopy(t["dest"]), "rv": {"k": "use", "op": {"k": "const", "ty": "bool", "bool": bool(val)}}, "span": span}],
+                       "term": {"k": "goto", "target": t["target"], "span": span}})
+    blk["term"] = {"k": "goto", "target": base, "span": span, "std_summary": "iter-any-all"}
+    return True
+
+
+_CTOR_MAPS = {"core::result::Result::map": ("core::result::Result", "Ok", "Err"), "core::option::Option::map": ("core::option::Option", "Some", "None")}
+
+
+def _summarise_ctor_map(F, raw, bi, t):
+    """`res.map(Enum::Variant)` / `opt.map(Enum::Variant)` — a tuple-variant constructor used as the mapping function — written out as
+    `match res { Ok(v) => Ok(Enum::Variant(v)), Err(e) => Err(e) }`, so that the value built is visible as an aggregate"""
+    adt, hit, other = _CTOR_MAPS[strip_generics(t["callee"])]
+    args = t.get("args", [])
+    if len(args) != 2 or args[0].get("k") not in ("copy", "move") or args[0]["pl"]["p"] or args[1].get("k") != "const" or not args[1].get("fn"):
+        return False
+    fn = args[1]["fn"]
+    owner, vname = fn.rsplit("::", 1) if "::" in fn else (fn, "")
+    a = F.adts.get(owner)
+    if a is None or fn in F.bodies:
+        return False
+    vv = [v for v in a.get("variants", []) if v["name"] == vname and len(v.get("fields", [])) == 1]
+    if not vv:
+        return False
+    span = t.get("span", "")
+    blocks, locs = raw["blocks"], raw["locals"]
+    blk = blocks[bi]
+    subj = args[0]["pl"]["l"]
+    d = len(locs)
+    locs.append({"id": d, "ty": "isize", "synthetic": True})
+    pay = len(locs)
+    locs.append({"id": pay, "ty": "", "synthetic": True})
+    built = len(locs)
+    locs.append({"id": built, "ty": owner, "adt": owner, "synthetic": True})
+    inl = blk.get("inl_stack", [])
+    org = blk.get("origin", raw["path"])
+    vs = _VARIANTS[adt]
+    hv = [v for v in vs if v["name"] == hit][0]
+    ov = [v for v in vs if v["name"] == other][0]
+    b_hit, b_other = len(blocks), len(blocks) + 1
+    blocks.append({"id": b_hit, "cleanup": False, "origin": org, "inl_stack": inl, "stmts": [
+        {"k": "assign", "pl": {"l": pay, "p": []}, "rv": {"k": "use", "op": {"k": "move", "pl": {"l": subj, "p": [{"v": hv["idx"], "vn": hit}, 0]}}}, "span": span},
+        {"k": "assign", "pl": {"l": built, "p": []}, "rv": {"k": "agg", "agg": "adt", "adt": owner, "vidx": vv[0]["idx"], "variant": vname, "fields": ["0"],
+                                                           "ops": [{"k": "move", "pl": {"l": pay, "p": []}}]}, "span": span},
+        {"k": "assign", "pl": copy.deepcopy(t["dest"]), "rv": {"k": "agg", "agg": "adt", "adt": adt, "vidx": hv["idx"], "variant": hit, "fields": ["0"],
+                                                              "ops": [{"k": "move", "pl": {"l": built, "p": []}}]}, "span": span}],
+        "term": {"k": "goto", "target": t["target"], "span": span}})
+    if other == "None":
+        orv = {"k": "agg", "agg": "adt", "adt": adt, "vidx": ov["idx"], "variant": "None", "fields": [], "ops": []}
+    else:
+        orv = {"k": "agg", "agg": "adt", "adt": adt, "vidx": ov["idx"], "variant": other, "fields": ["0"],
+               "ops": [{"k": "move", "pl": {"l": subj, "p": [{"v": ov["idx"], "vn": other}, 0]}}]}
+    blocks.append({"id": b_other, "cleanup": False, "origin": org, "inl_stack": inl, "stmts": [{"k": "assign", "pl": copy.deepcopy(t["dest"]), "rv": orv, "span": span}],
+                   "term": {"k": "goto", "target": t["target"], "span": span}})
+    blk["stmts"] = blk["stmts"] + [{"k": "assign", "pl": {"l": d, "p": []}, "rv": {"k": "discr", "pl": {"l": subj, "p": []}, "adt": adt, "ty": adt, "variants": vs}, "span": span}]
+    blk["term"] = {"k": "switch", "discr": {"k": "move", "pl": {"l": d, "p": []}}, "discr_ty": "isize", "targets": [[hv["discr"], b_hit]], "otherwise": b_other, "span": span,
+                   "std_summary": strip_generics(t["callee"])}
     return True
 
 
